@@ -35,3 +35,12 @@ Theorem C11_checker_accepts_every_model_run :
     check_C11 (model_case r stored local es) = [].
 Proof. intros r s l es. pose proof (checkers_accept_model r s l es) as H. cbv zeta in H. tauto. Qed.
 Print Assumptions C11_checker_accepts_every_model_run.
+
+(* the same clause without the monitor: on every run of the model - every role, ids and event
+   list - the callback HandleConnectionClosed appears at most once in the trace *)
+From Ship Require Import ConnExplicit.
+Theorem C11_end_reported_at_most_once :
+  forall (r : role) (stored local : bytes) (es : list eventx),
+    (count_cb (model_trace r stored local es) <= 1)%nat.
+Proof. exact closed_reported_at_most_once. Qed.
+Print Assumptions C11_end_reported_at_most_once.
